@@ -193,6 +193,8 @@ def c03_jobs(tier, seed, prop=None, prefix="ml", group_prefix="lbc_finish"):
         n = k + r
         for m in subsets(n):
             variants = [(rng.choice((0, 2)), rng.choice(("inc", "dec", "rnd")), [rng.randrange(r) for _ in range(r)])]
+            if tier == "quick" and key == "k4r4" and (m * 7 + seed) % 16 >= 10:    # quick: 160 of the 256 subsets of the largest code (VERIF_SEED rotates them); thorough: all
+                continue
             if tier != "quick":
                 variants = [(0, "inc", [0]), (2, "rnd", [rng.randrange(r) for _ in range(r)])]
             for api, order, rnd in variants:
